@@ -83,7 +83,7 @@ fn v5_subscribe(total: usize) -> v5::Packet {
 }
 
 pub fn sizes(thorough: bool, seed: u64) -> Vec<usize> {
-    let mut v: Vec<usize> = vec![65_536, 70_001, (1 << 20) + 10, (3 << 20) + 1, (1 << 22) + 1, (6 << 20) + 5, (1 << 23) + 1, (12 << 20) + 3, (1 << 24) + 1, 33 << 20];
+    let mut v: Vec<usize> = vec![4_097, 6_000, 9_000, 20_000, 65_536, 70_001, (1 << 20) + 10, (3 << 20) + 1, (1 << 22) + 1, (6 << 20) + 5, (1 << 23) + 1, (12 << 20) + 3, (1 << 24) + 1, 33 << 20];
     if thorough {
         v.extend([65_535, (1 << 17) - 1, 1 << 19, (1 << 21) - 4, (1 << 21) + 3, (1 << 22) - 9, (1 << 23) - 2, (1 << 24) - 3, (1 << 25) + 1, (1 << 26) - 1, 100_000_003, (1 << 27) + 2]);
     }
@@ -143,6 +143,35 @@ fn roundtrip<F: Fam>(rep: &mut Report, c: &Case<F>) {
                     format!("{} (reader schedule {}): poll decode gave {:?}, consumed {} (encoding is {} bytes)", tag, sched_text(&sched), r.map(|(t, b, _)| (t, b.len())).map_err(|e| e.text), o.consumed, enc.len()),
                 ),
             }
+        }
+    }
+}
+
+/// C05 on a TRICKLE: a never-Pending transport that delivers 1 (or 3) bytes per read.  Thousands of
+/// consecutive ready reads inside one poll call: the decoder must neither return Pending on its own
+/// (cooperative-yield budgets), nor lose track of the frame.
+fn trickle<F: Fam>(rep: &mut Report, c: &Case<F>) {
+    if c.enc.len() > (1 << 20) + 64 {
+        return;
+    }
+    let hl = header_len(c.enc.len());
+    let mut ext = c.enc.clone();
+    ext.extend_from_slice(&[0xc0, 0x00]);
+    for step in [1usize, 3] {
+        rep.cases += 1;
+        let o = F::poll(&ext, vec![Sched::Rest(step)], Term::Eof);
+        let pend = o.pendings;
+        match o.res {
+            Ok((total, body, q)) if q == *c.p && total == c.enc.len() && body[..] == c.enc[hl..] && o.consumed == c.enc.len() && pend == 0 => {}
+            r => rep.fail(
+                "large-trickle",
+                c.what.clone(),
+                format!("a never-Pending transport delivering {} byte(s) per read: poll decode gave {:?}, consumed {} of {}, and returned Pending {} time(s) although the transport never did", step, r.map(|(t, b, _)| (t, b.len())).map_err(|e| e.text), o.consumed, c.enc.len(), pend),
+            ),
+        }
+        let (r, n) = F::decode_async(&ext, vec![Sched::Rest(step)], Term::Eof);
+        if !matches!(&r, Ok(q) if q == c.p) || n != c.enc.len() {
+            rep.fail("large-trickle", c.what.clone(), format!("{} byte(s) per read: async decode gave {:?}, consumed {} of {}", step, r.map(|_| "a different packet").map_err(|e| e.text), n, c.enc.len()));
         }
     }
 }
@@ -262,7 +291,11 @@ fn one<F: Fam>(rep: &mut Report, prop: &str, what: String, p: &F::P, rng: &mut R
     });
     let c = Case::<F> { what, p, enc };
     match prop {
-        "C01" | "C02" | "C03" | "C05" | "C06" | "C11" | "C12" => roundtrip(rep, &c),
+        "C05" | "C06" => {
+            roundtrip(rep, &c);
+            trickle(rep, &c);
+        }
+        "C01" | "C02" | "C03" | "C11" | "C12" => roundtrip(rep, &c),
         "C07" => cuts(rep, &c, false, rng),
         "C14" => {
             cuts(rep, &c, true, rng);
